@@ -1184,6 +1184,9 @@ func emitForRangeStmt(cb *CodeBuilder, p *forRangeStmt, stmts []ast.Stmt, flows 
 		lhs[0] = p.stmt.Key
 		lhs[1] = p.stmt.Value
 		lhs[n-1] = identXgoOk
+		if n == 3 && lhs[1] == nil { // for k := range udt { ... } and for range udt { ... } with a (key, value, ok) iterator
+			lhs[1] = underscore
+		}
 		if lhs[0] == nil { // bugfix: for range udt { ... }
 			lhs[0] = underscore
 			if p.stmt.Tok == token.ILLEGAL {
